@@ -3,6 +3,7 @@ afterwards.  SEQ (expiry-centred alphabets incl. queue operations, every
 cull_limit) + exhaustive population sweep of expired items across the page
 size."""
 from .. import run, seq
+from ..env import ENV
 from ..worlds import CacheWorld
 from . import c03
 from .sweep import sweep_units
@@ -84,7 +85,134 @@ def plan(tier):
     return units
 
 
+class Retrying:
+    """Cache proxy whose calls wait for the lock (retry=True)."""
+
+    def __init__(self, cache):
+        self._c = cache
+
+    def __getattr__(self, name):
+        import functools
+        import inspect
+        attr = getattr(self._c, name)
+        try:
+            if callable(attr) and 'retry' in inspect.signature(
+                    attr).parameters:
+                return functools.partial(attr, retry=True)
+        except (TypeError, ValueError):
+            pass
+        return attr
+
+    def __getitem__(self, key):
+        return self._c[key]
+
+    def __contains__(self, key):
+        return key in self._c
+
+    def __delitem__(self, key):
+        del self._c[key]
+
+    def __len__(self):
+        return len(self._c)
+
+
+def wait_cases():
+    S = lambda k, v, e: ('set', k, v, e, None)    # noqa: E731
+    a_inline, a_file = [S('a', 1, 3)], [S('a', ('$T', 12), 3)]
+    queue = [('push', 1, None, 'back', 3, None),
+             ('push', ('$T', 12), None, 'back', None, None)]
+    cases = []
+    for init in (a_inline, a_file):
+        cases += [
+            (init, ('get', 'a', 0)), (init, ('get', 'a', 2)),
+            (init, ('getitem', 'a')), (init, ('contains', 'a')),
+            (init, ('touch', 'a', 100)), (init, ('touch', 'a', None)),
+            (init, ('add', 'a', 2, None, None)),
+            (init, ('add', 'a', ('$T', 13), 50, None)),
+            (init, ('pop', 'a', 0)), (init, ('pop', 'a', 2)),
+            (init, ('delete', 'a')),
+            (init, ('peekitem', True, 0)), (init, ('peekitem', False, 2)),
+        ]
+    cases += [
+        ([S('n', 7, 3)], ('incr', 'n', 1, 50)),
+        ([S('n', 7, 3)], ('decr', 'n', 1, 50)),
+        ([S('n', 7, 3)], ('incr', 'n', 2, None)),
+        (queue, ('pull', None, 'front', 0)),
+        (queue, ('peek', None, 'front', 0)),
+        (queue, ('pull', None, 'front', 2)),
+    ]
+    return cases
+
+
+# (failed attempts before the lock is released, virtual seconds each takes)
+WAITS = [(1, 5.0), (2, 2.0), (2, 1.0), (3, 1.0), (1, 3.0)]
+
+
+def wait_unit(unit):
+    """The clock moves while a call waits for the write lock: an item whose
+    time-to-live runs out during the wait is expired for that call (its
+    result is the reference's result at the moment the call returns)."""
+    import os
+    from ..fault import LockHook
+    from ..worlds import impl_op, model_op
+    from ..spec import same
+    _, settings = unit
+    part = {'states': 0, 'transitions': 0, 'executions': 0, 'violations': [],
+            'outcomes': {}, 'samples': [], 'caps': [], 'label': 'fault/wait'}
+    for init, op in wait_cases():
+        part['states'] += 1
+        for k, adv in WAITS:
+            w = CacheWorld(settings)
+            hook = None
+            try:
+                for o in init:
+                    w.apply_fast(o)
+                t0 = ENV.now
+                hook = LockHook(os.path.join(w.dir, 'cache.db'), 'release',
+                                None, k, 50, adv)
+                ENV.hook = hook
+                try:
+                    got = impl_op(Retrying(w.cache), op)
+                finally:
+                    hook.enabled = False
+                    ENV.hook = None
+                    hook.close()
+                waited = ENV.now - t0
+                want = model_op(w.spec, op)
+                part['transitions'] += 1
+                part['executions'] += 1
+                okey = 'waited-%s/%s' % (
+                    'past-expiry' if waited >= 3 else 'short',
+                    'agrees' if same(got, want) else 'differs')
+                part['outcomes'][okey] = part['outcomes'].get(okey, 0) + 1
+                if not same(got, want):
+                    part['violations'].append({
+                        'signature': {'clause': 'expired-during-wait',
+                                      'op': op[0]},
+                        'message': 'expired-during-wait: settings %r, item(s) '
+                                   '%r with 3 s to live; %r waited %.1f s for '
+                                   'the write lock (%d failed attempts) and '
+                                   'returned %r; at the time it returned the '
+                                   'reference says %r'
+                                   % (settings, init, op, waited, k, got,
+                                      want),
+                        'replay': {'engine': 'FAULT', 'module': 'props.c04',
+                                   'settings': settings,
+                                   'init': [list(o) for o in init],
+                                   'op': list(op), 'wait': [k, adv]}})
+            finally:
+                if hook is not None:
+                    hook.close()
+                ENV.hook = None
+                w.close()
+    part['samples'].append({'settings': settings, 'cases': len(wait_cases()),
+                            'waits': WAITS})
+    return part
+
+
 def work(unit):
+    if unit[0] == 'wait':
+        return wait_unit(unit)
     if unit[0] == 'sweep':
         from .sweep import sweep_unit
         return sweep_unit(unit)
@@ -102,6 +230,10 @@ def main(tier, seed):
               150 if tier == 'quick' else 2400)
              for name, st, depth, ticks in plan(tier)]
     units += sweep_units('C04', tier)
+    for st in ({}, {'statistics': 1},
+               {'eviction_policy': 'least-recently-used'},
+               {'eviction_policy': 'none', 'cull_limit': 0}):
+        units.append(('wait', dict(st, disk_min_file_size=8)))
     units = run.shuffled(units, seed)
     for part in run.pmap(work, units):
         rep.merge(part, part.get('label'))
